@@ -97,8 +97,8 @@ def run_inj(scn):
             for k, v in c.items():
                 sim.poke(csr[p][k], v)
             vals_s.append(vs); vals_m.append(vm); cs.append(c)
-        prev_rd = [S[csr[p]["rddata"]] for p in range(nph)]
         sim.step()
+        sim.ev("inj", cyc, ctl, S[ma[0]["address"]], S[ma[0]["cs_n"]], S[sl[0]["rddata"]])
         sel = ctl & 1
         if sel != last_sel:
             stats["mode_switches"] += 1
@@ -213,6 +213,7 @@ def run_conv(scn):
             vals.append(v)
         slow_hist.append(vals)
         stats["slow_cycles"] += 1
+        sim.ev("slow", c, S[slow[0]["rddata"]], S[slow[0]["rddata_valid"]])
 
     def fast_agent(sim):
         f = len(fast_hist)
@@ -247,6 +248,7 @@ def run_conv(scn):
             vals.append(v)
         fast_hist.append(vals)
         stats["fast_cycles"] += 1
+        sim.ev("fast", f, S[fastp[0]["address"]], S[fastp[0]["cas_n"]], S[fastp[0]["wrdata"]])
     sim.add_agent("sys", slow_agent)
     sim.add_agent(fast, fast_agent)
     sim.run(n, "sys")
